@@ -12,12 +12,12 @@ pub fn op_shape(op: &Op, scn: &Scenario) -> String {
         Op::Batch { queries } => {
             let labels: BTreeSet<_> = queries.iter().map(|q| q.1).collect();
             let vals: BTreeSet<_> = queries.iter().map(|q| scn.points[q.1].value_id).collect();
-            format!("batch/q{}/l{}{}", queries.len().min(4), labels.len().min(3), if vals.len() < labels.len() { "/shared" } else { "" })
+            format!("batch/q{}/l{}{}", queries.len().min(4), labels.len().min(3), if vals.len() < labels.len() || (scn.cfg.num_vars == Some(0) && labels.len() > 1) { "/shared" } else { "" })
         }
         Op::Lc { lcs, queries } => {
             let labels: BTreeSet<_> = queries.iter().map(|q| q.1).collect();
             let vals: BTreeSet<_> = queries.iter().map(|q| scn.points[q.1].value_id).collect();
-            format!("lc/{}x{}{}", lcs.len().min(3), queries.len().min(3), if vals.len() < labels.len() { "/shared" } else { "" })
+            format!("lc/{}x{}{}", lcs.len().min(3), queries.len().min(3), if vals.len() < labels.len() || (scn.cfg.num_vars == Some(0) && labels.len() > 1) { "/shared" } else { "" })
         }
     }
 }
